@@ -299,6 +299,15 @@ func c16units(tier string) []mc.Unit {
 			recs[i] = c16rec0(i)
 			recs[i].name = fmt.Sprintf("Enz%dI", i)
 			recs[i].supp = []string{"", "B", "NY", "BCEIJKMNOQRSVXY"}[i%4]
+			if i == 3 {
+				// a record with several hundred isoschizomers and a very long reference: lines of more than 4096 bytes
+				var iso []string
+				for k := 0; k < 700; k++ {
+					iso = append(iso, fmt.Sprintf("Iso%dI", k))
+				}
+				recs[i].iso = strings.Join(iso, ",")
+				recs[i].ref = strings.Repeat("Author, A.B., ", 400) + "(1999) J. Long Ref., vol. 1, pp. 1-2."
+			}
 			if i%5 == 0 {
 				recs[i].iso = ""
 			}
@@ -323,6 +332,9 @@ func c16units(tier string) []mc.Unit {
 			os.RemoveAll(dir)
 			if err != nil || !reflect.DeepEqual(g2, got) {
 				r.Failf("read-file", cas, tags, "same as Parse", fmt.Sprint(err))
+			}
+			if err == nil {
+				c16check(r, cas+" via Read", tags, recs, g2)
 			}
 		}
 		r.Eval(2)
